@@ -3,7 +3,7 @@ from ..cfg import search, witness_str, dominated_by_edge, elem_dominates
 from ..expr import show, walk, last, field_of, strip_wrappers, strip_casts, short, const_value, is_assign, assign_parts as _ap, strip_views
 from ..facts import AnalysisBroken
 from ..finite import dominating_facts, flatten_fact
-from ..predabs import Vocab, PredAbs, A, Not, And, Or, T, F
+from ..predabs import Vocab, PredAbs, A, Not, And, Or, T, F, translate, known_when, total, atoms_of
 from ..rules import common
 from .c15 import asg, key_of, fn, _reach_until_ret, handler_covers
 
@@ -25,13 +25,18 @@ EXPLANATION = (
     "handlers are invoked only through invokeWithSafetyNet, inside a try whose handlers (std::exception and catch-all) set 500, set the "
     "body through set_content and clear suppression; a request that fails to parse reaches the error send followed by close. R6 a "
     "request's Connection: close sets the close intent on every path, the response carries the matching Connection header, and the "
-    "close is performed after a successful send outside the send's critical section. R7 necessary condition for response order: two "
+    "close is performed after a successful send outside the send's critical section; the roles (close intent = the bool that gates "
+    "Transport::close after the main send, announced value = what reaches setHeader(\"Connection\") on the serialised message, close / "
+    "keep-alive option = the bool recorded from comparing a comma-split, case-folded token of THIS request's Connection field with the "
+    "literal, HTTP/1.0 = this request's version.minor == 0) are derived from dataflow, and the decision is read through HttpServer's own "
+    "bool helpers (per-call summaries over the same atoms, parameters bound to arguments). R7 necessary condition for response order: two "
     "requests of one connection must not be dispatched concurrently — the rule looks for a proof of per-connection serialisation at "
     "the dispatch site. R8 (= C15-R4) every throwing primitive on the I/O-thread framing path sits in a try whose handlers cover every "
     "exception type it can throw, so an unparsable request ends in a status or a close and never in an exception that leaves it waiting.")
 # exempt from the function-inventory guard (report.py): these rules hold for, or look into, functions they have never seen
 FOLLOWS_HELPERS = {"C16-R3": "universal: every function that writes a response body sets Content-Length in the same block, wherever it is",
                    "C16-R5": "the handler clauses are followed into the functions they call (who sets 500 / set_content / clears suppression)",
+                   "C16-R6": "the close decision is read through HttpServer's bool helpers (summaries over the same atoms, parameters bound to the arguments); a close / announcement moved into a helper it does not read is a refusal",
                    "C16-R8": "call-graph closure from the transport callbacks: new helpers on the I/O-thread path are part of the closure"}
 NOT_DECIDED = ["handler run times and scheduling", "well-formedness of headers a handler writes by hand (raw body without set_content)", "that the peer reads what was queued", "exceptions thrown after the response was handed to the transport (assumed none)"]
 
@@ -40,20 +45,421 @@ def is_send(n):
     return n.get("k") == "mcall" and last(n.get("callee", "")) in SENDERS and ("Transport" in n.get("callee", "") or n.get("callee", "").startswith(HS + "::send"))
 
 
-def main_send(p):
-    """(toWireFormat elem, serialised var decl id, shared var decl id, send elem) of the normal response"""
-    tw = [e for e in p.stmts() if e.node.get("k") == "mcall" and last(e.node.get("callee", "")) == "toWireFormat" and key_of(e.node.get("obj")) == "httpRes"]
-    if len(tw) != 1:
-        return tw, None, None, []
-    rd = [v["d"] for e in p.stmts() if e.node.get("k") == "decl" for v in e.node["vars"] if v.get("init") is not None and strip_views(v["init"]) is tw[0].node]
-    sh = [v["d"] for e in p.stmts() if e.node.get("k") == "decl" for v in e.node["vars"] if v.get("init") is not None and rd and "make_shared" in show(v["init"]) and any(x.get("k") == "var" and x.get("d") == rd[0] for x in walk(v["init"]))]
-    main = []
+# ------------------------------------------------------------------ roles by dataflow
+# No rule below identifies a construct by what a local is CALLED.  The roles the rules speak about are derived from how values flow:
+#   response  = the Response object handed to the user handler (argument of invokeWithSafetyNet in the Response& position);
+#   request   = the Request object handed to the user handler; parsed = the local initialised by HttpRequest::fromWireFormat();
+#   wire      = the HttpResponse whose body is assigned from response.body; serialised / shared / main send follow from wire.toWireFormat();
+#   completion= the lambda handed to the main send; outcome = the locals it captures by reference (written when the send completes);
+#   close intent      = the bool local (other than the outcome flags) that gates Transport::close after the main send;
+#   announced value   = what is passed to wire.setHeader("Connection", …);
+#   close / keep-alive option = the bool local assigned from a comparison of a token of THIS request's Connection field with the literal,
+#                       in processHttpRequest or in a helper of HttpServer reached from it (parameters bound to the arguments);
+#   HTTP/1.0          = `<this request's version>.minor == 0`, likewise through helpers.
+# A role that cannot be derived is a refusal (exit 2); the names only appear in messages.
+
+def _var(n):
+    n = strip_casts(n) if n is not None else None
+    return n if n is not None and n.get("k") == "var" else None
+
+
+def root_var(n):
+    """the variable an access path starts from (`v.a.b`, `v->a`, `v.m()`, `*v`, `v[i]`, copies and casts of those), or None"""
+    for _ in range(32):
+        n = strip_views(n) if n is not None else None
+        if n is None:
+            return None
+        k = n.get("k")
+        if k == "var":
+            return n
+        if k == "member":
+            n = n.get("b")
+        elif k == "opcall" and n.get("op") in ("->", "*", "[]") and n.get("args"):
+            n = n["args"][0]
+        elif k == "mcall":
+            n = n.get("obj")
+        elif k == "un" and n.get("op") in ("*", "&"):
+            n = n.get("v")
+        elif k == "idx":
+            n = n.get("b")
+        else:
+            return None
+    return None
+
+
+def _is_str(n, lit, fold=False):
+    """n (a string literal, possibly wrapped in a std::string construction) spells lit"""
+    vs = [x.get("v") for x in walk(n) if x.get("k") == "str"] if n is not None else []
+    return len(vs) == 1 and ((vs[0] or "").lower() == lit.lower() if fold else vs[0] == lit)
+
+
+def local_defs(f):
+    """declaration id -> list of (element, value | None) for every definition of a local / parameter of f (declaration with initialiser,
+    assignment, compound assignment, ++/--, out-argument of getline / operator>>)"""
+    if "_c16_defs" in f.__dict__:
+        return f._c16_defs
+    out = {}
+    for e in f.stmts():
+        n = e.node
+        k = n.get("k")
+        if k == "decl":
+            for v in n["vars"]:
+                out.setdefault(v["d"], []).append((e, v.get("init"), v))
+        elif k in ("bin", "opcall") and is_assign(n):
+            lhs, op, rhs = _ap(n)
+            lv = _var(lhs)
+            if lv is not None:
+                out.setdefault(lv.get("d"), []).append((e, rhs if op == "=" else n, lv))
+        elif k == "un" and ("++" in n.get("op", "") or "--" in n.get("op", "")):
+            lv = _var(n.get("v"))
+            if lv is not None:
+                out.setdefault(lv.get("d"), []).append((e, n, lv))
+        elif k == "call" and last(n.get("callee", "")) == "getline" and len(n.get("args", [])) >= 2:
+            lv = _var(n["args"][1])
+            if lv is not None:
+                out.setdefault(lv.get("d"), []).append((e, n["args"][0], lv))
+        elif k == "opcall" and n.get("op") == ">>" and len(n.get("args", [])) == 2:
+            lv = _var(n["args"][1])
+            if lv is not None:
+                out.setdefault(lv.get("d"), []).append((e, n["args"][0], lv))
+    f._c16_defs = out
+    return out
+
+
+def single_init(f, d):
+    """the initialiser of a local that is defined exactly once, by its declaration (a named value), else None"""
+    ds = local_defs(f).get(d, [])
+    if len(ds) == 1 and ds[0][0].node.get("k") == "decl" and ds[0][1] is not None:
+        return ds[0][1]
+    return None
+
+
+def is_transport_close(n):
+    return n.get("k") == "mcall" and last(n.get("callee", "")) == "close" and "Transport" in n.get("callee", "")
+
+
+def closes_through(fb, n):
+    """the helper of HttpServer a call node resolves to, if that helper closes a session on the transport (Transport::close in its body)"""
+    g = hs_callee(fb, n)
+    if g is not None and len([x for x in g.stmts() if is_transport_close(x.node)]) == 1:
+        return g
+    return None
+
+
+def hs_callee(fb, n):
+    """the function of HttpServer (one definition with a body in http_server.hpp, called on `this` or statically, not virtually, arity
+    matches) that a call node resolves to, else None — whatever it is called"""
+    if not isinstance(n, dict) or n.get("k") not in ("call", "mcall") or n.get("virt"):
+        return None
+    c = n.get("callee") or ""
+    if not c.startswith(HS + "::"):
+        return None
+    if n.get("k") == "mcall" and (n.get("obj") or {}).get("k") not in (None, "this"):
+        return None
+    gs = [g for g in fb.funcs(c, HSF) if g.ok and g.kind in ("method", "function") and len(g.params) == len(n.get("args", []))]
+    return gs[0] if len(gs) == 1 else None
+
+
+class Frame:
+    """a function as it is reached from processHttpRequest: the call that leads to it and the frame the call is made in, so that a
+    parameter can be read as the caller's argument"""
+
+    def __init__(self, f, call=None, parent=None):
+        self.f, self.call, self.parent = f, call, parent
+        self.depth = 0 if parent is None else parent.depth + 1
+        self.kids = {}
+
+    def sigs(self):
+        return {self.f.sig} | (self.parent.sigs() if self.parent is not None else set())
+
+    def origin(self, n, depth=0):
+        """the variable of the OUTERMOST function that the access path n of this frame starts from, looking through named values
+        (single-definition locals) and through parameters bound to the caller's arguments; None for anything else"""
+        rv = root_var(n)
+        if rv is None or depth > 12:
+            return None
+        if rv.get("parm") is not None and not rv.get("cap"):
+            if self.parent is None:
+                return rv
+            idx = [i for i, p_ in enumerate(self.f.params) if p_.get("d") == rv.get("d")]
+            args = self.call.get("args", [])
+            if len(idx) != 1 or idx[0] >= len(args):
+                return None
+            return self.parent.origin(args[idx[0]], depth + 1)
+        init = single_init(self.f, rv.get("d"))
+        if init is not None and root_var(init) is not None:
+            return self.origin(init, depth + 1)
+        return rv if self.parent is None else None
+
+
+def _dnf(atoms, mask):
+    full = (1 << (1 << len(atoms))) - 1
+    if mask & full == full:
+        return T
+    out = F
+    for a in range(1 << len(atoms)):
+        if mask >> a & 1:
+            out = Or(out, And(*[A(x) if a >> i & 1 else Not(A(x)) for i, x in enumerate(atoms)]))
+    return out
+
+
+def _rename_atom(fm, a, b):
+    if fm[0] == "a":
+        return A(b) if fm[1] == a else fm
+    if fm[0] == "not":
+        return ("not", _rename_atom(fm[1], a, b))
+    if fm[0] in ("and", "or"):
+        return (fm[0], _rename_atom(fm[1], a, b), _rename_atom(fm[2], a, b))
+    return fm
+
+
+class _PA(PredAbs):
+    """PredAbs whose effects callback is also handed the abstraction's own leaf (the one that knows the tracked `bool x = <cond>` locals)"""
+
+    def __init__(self, f, vocab, leaf, effects2, **kw):
+        self._eff2 = effects2
+        PredAbs.__init__(self, f, vocab, leaf, lambda e: self._eff2(e, self.leaf), track_bools=True, **kw)
+
+
+class Follow:
+    """A5 predicate abstraction that reads through HttpServer's own bool helpers.  A call `h(args)` met in a condition or in the value
+    of a flag stands for what h's body computes: the same abstraction is run over h (its frame binds the parameters to the arguments),
+    the abstract states at its `return`s are collected, and the call is replaced by 'the valuations under which h returns true' (exact
+    when the result is a function of the atoms, otherwise the pair true⇒…, false⇒…).  So `const bool c = a(sid) || b(req.headers, v)` and
+    a guard-clause helper mean what their bodies mean — whatever they are called and however many there are.
+
+    leaf0(frame, node) -> formula | None ; eff0(frame, elem, leaf) -> ops | None   (set by the rule before run())"""
+
+    def __init__(self, fb, top, atoms):
+        self.fb, self.top, self.atoms = fb, Frame(top), list(atoms)
+        self.leaf0 = self.eff0 = None
+        self.followed = []
+
+    def kid(self, fr, n):
+        """the frame of the helper a call node evaluated in frame fr resolves to, or None (not a helper / recursion / too deep)"""
+        if id(n) in fr.kids:
+            return fr.kids[id(n)][1]
+        g = hs_callee(self.fb, n)
+        k = Frame(g, n, fr) if g is not None and fr.depth < 3 and g.sig not in fr.sigs() else None
+        fr.kids[id(n)] = (n, k)     # (the node is kept alive: its id is the key)
+        return k
+
+    def frames(self):
+        """processHttpRequest and every helper frame reachable from it through calls"""
+        out, work = [], [self.top]
+        while work:
+            fr = work.pop(0)
+            out.append(fr)
+            for n in list(fr.f.nodes.values()):
+                if n.get("k") in ("call", "mcall"):
+                    k = self.kid(fr, n)
+                    if k is not None and k not in out and k not in work:
+                        work.append(k)
+        return out
+
+    def leaf(self, fr, n):
+        r = self.leaf0(fr, n)
+        if r is not None:
+            return r
+        if n.get("k") in ("call", "mcall") and n.get("t") == "bool":
+            k = self.kid(fr, n)
+            if k is not None:
+                return self.summary(k)
+        return None
+
+    def summary(self, k):
+        if not hasattr(k, "_sum"):
+            k._sum = None       # (a cycle is cut by Frame.sigs(); this guards re-entry all the same)
+            k._sum = self._summarise(k)
+        return k._sum
+
+    def _summarise(self, k):
+        g = k.f
+        # a helper that assigns to / through one of its parameters is not summarised: it changes the caller's state
+        for e in g.stmts():
+            a = asg(e.node) or ((_ap(e.node)[0], None) if e.node.get("k") in ("bin", "opcall") and is_assign(e.node) else None)
+            lhs = strip_casts(a[0]) if a else (strip_casts(e.node["v"]) if e.node.get("k") == "un" and ("++" in e.node.get("op", "") or "--" in e.node.get("op", "")) else None)
+            while lhs is not None and lhs.get("k") == "member":
+                lhs = strip_casts(lhs.get("b"))
+            if lhs is not None and lhs.get("k") == "var" and lhs.get("parm") is not None:
+                return None
+        rets = common.returns(g)
+        if not rets or any(e.node.get("v") is None for e in rets):
+            return None
+        pa = _PA(g, Vocab(self.atoms), lambda x: self.leaf(k, x), lambda e, lf: self.eff0(k, e, lf), eh=False)
+        low = (1 << len(self.atoms)) - 1
+
+        def project(st):
+            m = 0
+            for a_ in range(pa.v.size):
+                if st >> a_ & 1:
+                    m |= 1 << (a_ & low)
+            return m
+        st_t = st_f = 0
+        for e in rets:
+            st = pa.before(e)
+            if st is None:
+                continue
+            v = e.node["v"]
+            cv = const_value(strip_casts(v)) if strip_casts(v).get("k") == "bool" else None
+            fm = (T if cv else F) if cv is not None else translate(v, pa.leaf)
+            st_t |= project(pa.v.assume(st, known_when(fm, True)))
+            st_f |= project(pa.v.assume(st, known_when(fm, False)))
+        if g not in self.followed:
+            self.followed.append(g)
+        ft, ff = _dnf(self.atoms, st_t), _dnf(self.atoms, st_f)
+        if st_t & st_f == 0:
+            return ft                                           # exact: the result is a function of the atoms
+        return ("and?", ft, ("or?", Not(ff), None))             # returned true ⇒ ft ; returned false ⇒ ff (predabs.known_when)
+
+    def run(self, **kw):
+        return _PA(self.top.f, Vocab(self.atoms), lambda n: self.leaf(self.top, n), lambda e, lf: self.eff0(self.top, e, lf), **kw)
+
+
+def flag_ops(atom, fm, scratch):
+    """effects that make `atom` the truth value of the (possibly partial, possibly self-referential) formula fm"""
+    if fm is None:
+        return [("havoc", atom)]
+    tf = total(fm)
+    if tf is not None:
+        return [("assign", atom, tf)]
+    kt, kf = _rename_atom(known_when(fm, True), atom, scratch), _rename_atom(known_when(fm, False), atom, scratch)
+    return [("assign", scratch, A(atom)), ("havoc", atom), ("assume", Or(Not(A(atom)), kt)), ("assume", Or(A(atom), kf)), ("havoc", scratch)]
+
+
+def pure_value(fb, call, depth=0):
+    """the value of a call to a loop-free, side-effect-free helper of HttpServer as ONE expression over the call's arguments (its
+    `return`s joined by the conditions that select them), or None.  `isBodyless(res.status)` then reads as its body does."""
+    g = hs_callee(fb, call)
+    if g is None or depth > 3:
+        return None
+    roots = [e for e in g.stmts() if "root" in e.raw]
+    if any(e.node.get("k") != "ret" and e.block.cond is None for e in roots) or any(e.kind != "stmt" for e in g.elems()):
+        return None
+    table = {p_["d"]: a for p_, a in zip(g.params, call.get("args", []))}
+
+    def sub(n):
+        if isinstance(n, list):
+            return [sub(x) for x in n]
+        if not isinstance(n, dict):
+            return n
+        if n.get("k") == "var" and n.get("parm") is not None and n.get("d") in table:
+            return strip_casts(table[n["d"]])
+        if n.get("k") in ("call", "mcall"):
+            inner = pure_value(fb, {k_: sub(v_) for k_, v_ in n.items()}, depth + 1)
+            if inner is not None:
+                return inner
+        return {k_: sub(v_) for k_, v_ in n.items()}
+
+    def val(bid, seen):
+        if bid is None or bid in seen or len(seen) > 64:
+            return None
+        b = g.blocks[bid]
+        for e in b.elems:
+            if e.kind == "stmt" and "root" in e.raw and e.node.get("k") == "ret":
+                return sub(e.node["v"]) if e.node.get("v") is not None else None
+        succs = [s for s in b.succs if s is not None]
+        if b.cond is not None and len(b.succs) == 2:
+            c, t_, f_ = sub(b.cond), val(b.succs[0], seen | {bid}), val(b.succs[1], seen | {bid})
+            if t_ is None or f_ is None:
+                return None
+            return t_ if t_ is f_ else {"k": "cond", "c": c, "t": t_, "f": f_}
+        if len(succs) == 1:
+            return val(succs[0], seen | {bid})
+        return None
+    return val(g.entry, frozenset())
+
+
+class Roles:
+    pass
+
+
+_ROLES = {}
+
+
+def roles(ctx):
+    """the roles of processHttpRequest's locals, derived from dataflow (see the comment above)"""
+    fb = ctx.fb()
+    if id(fb) in _ROLES:
+        return _ROLES[id(fb)][1]
+    ro = Roles()
+    p = ro.p = fn(ctx, HS, "processHttpRequest", HSF)
+    sn = fn(ctx, HS, "invokeWithSafetyNet", HSF)
+    pos_res = [i for i, q in enumerate(sn.params) if q["t"].replace("const ", "").strip() == HS + "::Response &"]
+    pos_req = [i for i, q in enumerate(sn.params) if q["t"].replace("const ", "").strip() == HS + "::Request &"]
+    if len(pos_res) != 1 or len(pos_req) != 1 or "const" in sn.params[pos_res[0]]["t"]:
+        raise AnalysisBroken("invokeWithSafetyNet: Request& / Response& parameters not identified")
+    ro.sn, ro.sn_res = sn, sn.params[pos_res[0]]["n"]
+    # the handler invocations: in processHttpRequest itself or in a helper of HttpServer it calls (the helper's parameters are read as the
+    # caller's arguments).  ro.inv = the elements of processHttpRequest at which a handler may run (the invocation, or the call that leads to it)
+    ro.frames = Follow(fb, p, []).frames()
+    ro.inv, ro.ninv, res_v, req_v = [], 0, set(), set()
+    for fr in ro.frames:
+        for e in fr.f.stmts():
+            if e.node.get("k") in ("call", "mcall") and e.node.get("callee") == sn.name and len(e.node.get("args", [])) == len(sn.params):
+                ro.ninv += 1
+                res_v.add((fr.origin(e.node["args"][pos_res[0]]) or {}).get("d"))
+                req_v.add((fr.origin(e.node["args"][pos_req[0]]) or {}).get("d"))
+                top = fr
+                while top.parent is not None and top.parent.parent is not None:
+                    top = top.parent
+                site = e if fr.parent is None else p.elem_for(top.call)
+                if site is not None and site not in ro.inv:
+                    ro.inv.append(site)
+    if len(ro.inv) < 1 or len(res_v) != 1 or len(req_v) != 1 or None in res_v or None in req_v:
+        raise AnalysisBroken("processHttpRequest: the Request / Response handed to the user handler are not one local each (%d invocations)" % ro.ninv)
+    ro.RES, ro.REQ = res_v.pop(), req_v.pop()
+    parsed = [v["d"] for e in p.stmts() if e.node.get("k") == "decl" for v in e.node["vars"] if v.get("init") is not None and (strip_views(v["init"]) or {}).get("k") in ("call", "mcall") and last(strip_views(v["init"]).get("callee", "")) == "fromWireFormat"]
+    if len(parsed) != 1:
+        raise AnalysisBroken("processHttpRequest: %d locals initialised by fromWireFormat()" % len(parsed))
+    ro.PARSED = parsed[0]
+
+    def body_of(n, d):
+        n = strip_views(n)
+        return n is not None and n.get("k") == "member" and last(n.get("n", "")) == "body" and (_var(n.get("b")) or {}).get("d") == d
+    # the wire message: the HttpResponse local whose members are assigned from the handler's response (status / headers / body)
+    wires = set()
     for e in p.stmts():
-        if is_send(e.node) and sh and len(e.node.get("args", [])) >= 3:
-            a1, a2 = strip_casts(e.node["args"][1]), strip_casts(e.node["args"][2])
-            if show(a1).endswith("->data()") and show(a2).endswith("->size()") and all(any(x.get("k") == "var" and x.get("d") == sh[0] for x in walk(a)) for a in (a1, a2)):
-                main.append(e)
-    return tw, (rd[0] if len(rd) == 1 else None), (sh[0] if len(sh) == 1 else None), main
+        a_ = asg(e.node)
+        lhs = strip_casts(a_[0]) if a_ else None
+        if lhs is not None and lhs.get("k") == "member" and _var(lhs.get("b")) is not None and "HttpResponse" in (_var(lhs.get("b")).get("t") or "") and (root_var(a_[1]) or {}).get("d") == ro.RES:
+            wires.add(_var(lhs.get("b")).get("d"))
+    if len(wires) != 1:
+        raise AnalysisBroken("processHttpRequest: the wire message (the HttpResponse whose members are assigned from the handler's response) was not found (%d candidates)" % len(wires))
+    ro.WIRE = wires.pop()
+    ro.copy = [e for e in p.stmts() if asg(e.node) and body_of(asg(e.node)[1], ro.RES) and strip_casts(asg(e.node)[0]).get("k") == "member" and last(strip_casts(asg(e.node)[0]).get("n", "")) == "body" and (_var(strip_casts(asg(e.node)[0]).get("b")) or {}).get("d") == ro.WIRE]
+    names = {}
+    for x in p.nodes.values():
+        if x.get("k") == "var":
+            names.setdefault(x["n"], set()).add(x.get("d"))
+    ro.name = {}
+    for role, d in (("res", ro.RES), ("req", ro.REQ), ("wire", ro.WIRE), ("parsed", ro.PARSED)):
+        nm = [n_ for n_, ds in names.items() if d in ds]
+        if len(nm) != 1 or len(names[nm[0]]) != 1:
+            raise AnalysisBroken("processHttpRequest: the %s object's name is shared with another local (shadowing): texts of its accesses would be ambiguous" % role)
+        ro.name[role] = nm[0]
+    # serialisation -> shared copy -> send
+    ro.tw = [e for e in p.stmts() if e.node.get("k") == "mcall" and last(e.node.get("callee", "")) == "toWireFormat" and (_var(e.node.get("obj")) or {}).get("d") == ro.WIRE]
+    ro.rd = ro.sh = None
+    ro.main = []
+    if len(ro.tw) == 1:
+        rd = [v["d"] for e in p.stmts() if e.node.get("k") == "decl" for v in e.node["vars"] if v.get("init") is not None and strip_views(v["init"]) is ro.tw[0].node]
+        sh = [v["d"] for e in p.stmts() if e.node.get("k") == "decl" for v in e.node["vars"] if v.get("init") is not None and rd and "make_shared" in show(v["init"]) and any(x.get("k") == "var" and x.get("d") == rd[0] for x in walk(v["init"]))]
+        for e in p.stmts():
+            if is_send(e.node) and sh and len(e.node.get("args", [])) >= 3:
+                a1, a2 = strip_casts(e.node["args"][1]), strip_casts(e.node["args"][2])
+                if show(a1).endswith("->data()") and show(a2).endswith("->size()") and all(any(x.get("k") == "var" and x.get("d") == sh[0] for x in walk(a)) for a in (a1, a2)):
+                    ro.main.append(e)
+        ro.rd, ro.sh = (rd[0] if len(rd) == 1 else None), (sh[0] if len(sh) == 1 else None)
+    # the completion of the main send and the locals it writes
+    ro.completion, ro.OUTCOME = None, set()
+    if len(ro.main) == 1:
+        lams = [x for a in ro.main[0].node.get("args", []) for x in walk(a) if x.get("k") == "lambda"]
+        if len(lams) == 1:
+            ro.completion = ([lf for (ln, lf) in p.lambdas if lf.name == lams[0].get("fn")] or [None])[0]
+            ro.OUTCOME = {c.get("d") for c in lams[0].get("caps", []) if c.get("by") == "ref" and c.get("d") is not None}
+    _ROLES[id(fb)] = (fb, ro)
+    return ro
 
 
 def r1(ctx, r):
@@ -68,6 +474,14 @@ def r1(ctx, r):
         txt = " ".join(show(c) for c, t in facts if t)
         if "onResponseSuppressed" in txt or "_suppressSend" in txt or "ranHandler" in txt:
             handoff.append(e)
+    # (the same, not depending on how the 'a handler ran' flag is spelled: a return that is reachable only over the true edge of a test of
+    # Response::_suppressSend / of onResponseSuppressed())
+    def _supp(b):
+        return b.cond is not None and any((x.get("k") == "member" and x.get("n") == HS + "::Response::_suppressSend") or (x.get("k") in ("call", "mcall") and last(x.get("callee", "")) == "onResponseSuppressed") for x in walk(b.cond))
+    if any(_supp(b) for b in p.blocks.values()):
+        for e in common.returns(p):
+            if e not in handoff and search(p, ("entry",), lambda x, e=e: x is e, eh=False, edge_ok=lambda b, si: not (_supp(b) and b.edge_label(si) is True)) is None:
+                handoff.append(e)
     vocab = Vocab(["sent", "twice", "tp", "sd", "handoff"])
 
     def leaf(n):
@@ -110,8 +524,18 @@ def r1(ctx, r):
     r.instance()
     r.expect(len(up) == 1 and pa.entails(up[0], Or(A("sent"), Not(A("tp")), A("sd"))), p, up[0] if up else None, "upgrade without response", "the upgrade path returns without sending the upgrade response", okdesc="upgrade: response sent, then hand-off")
     # I/O thread: every extracted request is enqueued or answered 503
-    h = fn(ctx, HS, "handleIncomingData", HSF)
-    ext = [e for e in h.stmts() if e.node.get("k") == "decl" and any(v["n"] == "requestData" for v in e.node["vars"])]
+    h0, h = dispatch_fn(ctx)        # (h: where the dispatch statements are — handleIncomingData, or its loop-body lambda)
+    # roles in handleIncomingData, by dataflow: the task is the lambda that calls processHttpRequest; the session is the function's first
+    # parameter (captured); the extracted request is the captured local handed to processHttpRequest as the request bytes
+    lam = [(ln, lf) for (ln, lf) in h.lambdas if any(x.node.get("k") == "mcall" and last(x.node.get("callee", "")) == "processHttpRequest" for x in lf.stmts())]
+    caps, task_args = {}, []
+    if len(lam) == 1:
+        caps = {c_["n"]: c_.get("d") for c_ in lam[0][0].get("caps", []) if c_.get("d") is not None}
+        task_args = [x for x in lam[0][1].stmts() if x.node.get("k") == "mcall" and last(x.node.get("callee", "")) == "processHttpRequest"][0].node["args"]
+    ext_d = caps.get((_var(task_args[1]) or {}).get("n")) if len(task_args) >= 2 and (_var(task_args[1]) or {}).get("cap") else None
+    if ext_d is None:
+        raise AnalysisBroken("handleIncomingData: the task that hands (session, extracted request bytes, …) to processHttpRequest was not identified (%d candidate lambdas)" % len(lam))
+    ext = [e for e in h.stmts() if e.node.get("k") == "decl" and any(v["d"] == ext_d for v in e.node["vars"])]
     enq = [e for e in h.stmts() if e.node.get("k") == "mcall" and last(e.node.get("callee", "")) in ("tryEnqueue", "enqueue")]
     r.instance()
     ok = len(ext) == 1 and len(enq) == 1 and search(h, ext[0], "exit", stop=lambda x: x is enq[0], eh=False) is None and search(h, ext[0], lambda x: x is ext[0], stop=lambda x: x is enq[0], eh=False) is None
@@ -127,30 +551,58 @@ def r1(ctx, r):
     r.expect(ok, h, enq[0] if enq else None, "rejected request unanswered", "a request the pool refuses is not answered with 503", okdesc="tryEnqueue refused → 503")
     # the enqueued task is processHttpRequest for this sid with the extracted bytes
     r.instance()
-    lam = [lf for (ln, lf) in h.lambdas if any(x.node.get("k") == "mcall" and last(x.node.get("callee", "")) == "processHttpRequest" for x in lf.stmts())]
-    ok = len(lam) == 1
+    ok = len(lam) == 1 and len(task_args) >= 2
     if ok:
-        c = [x for x in lam[0].stmts() if x.node.get("k") == "mcall" and last(x.node.get("callee", "")) == "processHttpRequest"][0]
-        # (sid, the extracted bytes, and — if present — the framing decisions taken for exactly this request, i.e. captured locals)
-        ks = [key_of(a) for a in c.node["args"]]
-        ok = ks[:2] == ["sid", "requestData"] and all(k is not None and "." not in k and "->" not in k for k in ks[2:])
+        # (this session, the extracted bytes, and — if present — the framing decisions taken for exactly this request, i.e. captured locals)
+        vs = [_var(a) for a in task_args]
+        sess = caps.get(vs[0]["n"]) if vs[0] is not None else None
+        if h is not h0 and sess is not None:
+            # the session variable of the loop-body lambda is itself a capture of handleIncomingData's parameter
+            inner = [x for x in h.nodes.values() if x.get("k") == "var" and x.get("d") == sess and x.get("cap")]
+            sess = ({c_["n"]: c_.get("d") for c_ in getattr(h, "lambda_node", {}).get("caps", [])}.get(inner[0]["n"]) if inner else None)
+        ok = all(v is not None and v.get("cap") and v["n"] in caps for v in vs) and bool(h0.params) and sess == h0.params[0].get("d") and bool(ext)
     r.expect(ok, h, None, "task payload", "the enqueued task does not process (sid, requestData, per-request framing decisions)", okdesc="task = processHttpRequest(sid, requestData…)")
 
 
+def dispatch_fn(ctx):
+    """(handleIncomingData, the function that holds its dispatch call): handleIncomingData itself, or a local lambda of it that is invoked in
+    place (the pipelining loop's body written as `auto next = [&]() -> bool {…}; while (next()) {}`) — same statements, one function further in"""
+    h = fn(ctx, HS, "handleIncomingData", HSF)
+
+    def is_enq(x):
+        return x.node.get("k") == "mcall" and last(x.node.get("callee", "")) in ("tryEnqueue", "enqueue")
+    if any(is_enq(x) for x in h.stmts()):
+        return h, h
+    cands = []
+    for (ln, lf) in h.lambdas:
+        if not lf.ok or not any(is_enq(x) for x in lf.stmts()):
+            continue
+        # bound to a local that is only ever called: `v(...)`
+        vd = [v["d"] for e in h.stmts() if e.node.get("k") == "decl" for v in e.node["vars"] if v.get("init") is not None and strip_views(v["init"]) is ln]
+        uses = [x for x in h.nodes.values() if x.get("k") == "var" and vd and x.get("d") == vd[0]]
+        called = [x for x in h.nodes.values() if x.get("k") == "opcall" and x.get("op") == "()" and x.get("args") and vd and (_var(x["args"][0]) or {}).get("d") == vd[0]]
+        if len(vd) == 1 and called and len(uses) == len(called):
+            cands.append(lf)
+    if len(cands) != 1:
+        raise AnalysisBroken("handleIncomingData: the dispatch to the worker pool is neither in the function nor in one local lambda it invokes in place (%d candidates)" % len(cands))
+    return h, cands[0]
+
+
 def r2(ctx, r):
-    p = fn(ctx, HS, "processHttpRequest", HSF)
-    # the main response: httpRes -> toWireFormat -> shared string -> sendAsync(data(), size())
-    tw, rd, sh, main = main_send(p)
+    ro = roles(ctx)
+    p, W_, R_ = ro.p, ro.name["wire"], ro.name["res"]
+    # the main response: wire message -> toWireFormat -> shared string -> sendAsync(data(), size())
+    tw, rd, sh, main = ro.tw, ro.rd, ro.sh, ro.main
     r.instance()
-    if not r.expect(len(tw) == 1, p, None, "response serialisation", "processHttpRequest serialises httpRes %d times (one contiguous buffer expected)" % len(tw), okdesc="httpRes.toWireFormat() once"):
+    if not r.expect(len(tw) == 1, p, None, "response serialisation", "processHttpRequest serialises %s %d times (one contiguous buffer expected)" % (W_, len(tw)), okdesc="%s.toWireFormat() once" % W_):
         return
     r.instance()
-    r.expect(rd is not None and sh is not None and len(main) == 1, p, main[0] if main else None, "response bytes", "the send command does not carry exactly data()/size() of the shared copy of httpRes.toWireFormat()", okdesc="sendAsync(shared->data(), shared->size()) of the serialised response")
+    r.expect(rd is not None and sh is not None and len(main) == 1, p, main[0] if main else None, "response bytes", "the send command does not carry exactly data()/size() of the shared copy of %s.toWireFormat()" % W_, okdesc="sendAsync(shared->data(), shared->size()) of the serialised response")
     # body and headers of httpRes are those of the handler's Response
-    cp = {show(strip_casts(asg(e.node)[0])): show(strip_views(asg(e.node)[1])) for e in p.stmts() if asg(e.node) and show(strip_casts(asg(e.node)[0])).startswith("httpRes.")}
+    cp = {show(strip_casts(asg(e.node)[0])): show(strip_views(asg(e.node)[1])) for e in p.stmts() if asg(e.node) and show(strip_casts(asg(e.node)[0])).startswith(W_ + ".")}
     r.instance()
-    r.expect(cp.get("httpRes.body") == "res.body" and cp.get("httpRes.headers") == "res.headers" and cp.get("httpRes.statusCode") == "res.status", p, None, "response copy", "httpRes is not status/headers/body of the handler's Response: %s" % cp,
-             okdesc="httpRes = (res.status, res.headers, res.body)")
+    r.expect(cp.get(W_ + ".body") == R_ + ".body" and cp.get(W_ + ".headers") == R_ + ".headers" and cp.get(W_ + ".statusCode") == R_ + ".status", p, None, "response copy", "%s is not status/headers/body of the handler's Response: %s" % (W_, cp),
+             okdesc="%s = (%s.status, %s.headers, %s.body)" % (W_, R_, R_, R_))
     # nothing modifies the shared buffer between serialisation and send; body not streamed separately
     r.instance()
     if main:
@@ -161,17 +613,31 @@ def r2(ctx, r):
     r.instance()
     ok = len(tf) == 1
     if ok:
-        outs = sorted([e for e in tf[0].stmts() if e.node.get("k") == "opcall" and e.node.get("op") == "<<" and "root" in e.raw], key=lambda e: e.line)
+        def writes(g):
+            """the statements of g that write to a stream, in source order: `s << …` and calls of iora functions that are handed a stream"""
+            return sorted([e for e in g.stmts() if "root" in e.raw and ((e.node.get("k") == "opcall" and e.node.get("op") == "<<") or
+                           (e.node.get("k") == "call" and (e.node.get("callee") or "").startswith("iora::") and any("ostream" in (strip_casts(a).get("t") or "") or "stringstream" in (strip_casts(a).get("t") or "") for a in e.node.get("args", []))))], key=lambda e: e.line)
+
+        def blank_line_last(g, ws, depth=0):
+            """the last write of ws is the empty line: `stream << "\\r\\n"` on its own, or a helper whose own last write is that"""
+            if not ws:
+                return False
+            n = ws[-1].node
+            if n.get("k") == "opcall":
+                return _var(n["args"][0]) is not None and strip_casts(n["args"][1]).get("k") == "str" and strip_casts(n["args"][1]).get("v") == "\r\n"
+            hs_ = [h for h in ctx.fb().by_name.get(n.get("callee"), []) if h.ok]
+            return depth < 2 and len({(h.file, h.line) for h in hs_}) == 1 and blank_line_last(hs_[0], writes(hs_[0]), depth + 1)
+        outs = writes(tf[0])
         txt = [show(e.node) for e in outs]
         ib = [i for i, t in enumerate(txt) if t.endswith("<< body")]
-        ie = [i for i, t in enumerate(txt) if t.endswith('<< "\\r\\n"') and "value" not in t and "statusText" not in t]
-        ok = len(ib) == 1 and ib[0] == len(txt) - 1 and bool(ie) and ie[-1] == ib[0] - 1
+        ok = len(ib) == 1 and ib[0] == len(txt) - 1 and blank_line_last(tf[0], outs[:-1])
     r.expect(ok, tf[0] if tf else HS, None, "wire order", "HttpResponse::toWireFormat does not end with the blank line followed by the body", okdesc="toWireFormat: … CRLF, body last")
 
 
 def r3(ctx, r):
     fb = ctx.fb()
     n = 0
+    sites = []
     for f in fb.in_file(HSF):
         if not f.ok:
             continue
@@ -185,6 +651,20 @@ def r3(ctx, r):
                 tgt, val = show(strip_casts(nn.get("obj"))), strip_views(nn["args"][1])
             if tgt is None:
                 continue
+            # a helper of the message object that sets ITS OWN Content-Length from a length parameter (`headers[…] = to_string(len)`): the
+            # obligation moves to every call on `this` — there the argument must be the size of what becomes the body
+            pv = _var(val["args"][0]) if val.get("k") == "call" and last(val.get("callee", "")) == "to_string" and val.get("args") else None
+            if pv is not None and pv.get("parm") is not None and tgt == "headers":
+                pi = [i for i, q in enumerate(f.params) if q.get("d") == pv.get("d")]
+                calls = [(g, c) for g in fb.in_file(HSF) if g.ok and g.cls == f.cls for c in g.stmts() if c.node.get("k") in ("call", "mcall") and c.node.get("callee") == f.name and
+                         (c.node.get("obj") or {"k": "this"}).get("k") == "this" and len(c.node.get("args", [])) == len(f.params)]
+                if len(pi) == 1 and calls:
+                    for (g, c) in calls:
+                        sites.append((g, c, tgt, {"k": "call", "callee": "std::to_string", "args": [c.node["args"][pi[0]]]}))
+                    continue
+            sites.append((f, e, tgt, val))
+    if True:
+        for (f, e, tgt, val) in sites:
             n += 1
             r.instance()
             owner = tgt[:-len(".headers")] if tgt.endswith(".headers") else ("" if tgt == "headers" else tgt)
@@ -216,8 +696,9 @@ def r3(ctx, r):
                             why = "the header is the size of `%s` but the body is assigned from %s" % (sized, sorted(srcs))
             r.expect(ok, f, e, "Content-Length source", "%s sets Content-Length from `%s`, which is not the length of the body sent on that path (%s): the peer reads a response of the wrong length and loses framing"
                      % (short(f.name), show(val)[:50], why), okdesc="%s: Content-Length = to_string(%s.size())" % (last(f.name), "body"))
-    if n < 6:
-        raise AnalysisBroken("only %d Content-Length assignments found in http_server.hpp (floor 6)" % n)
+    if n < 4:
+        # (six on the tree the rule was written for; builders of identical error responses may legitimately be merged, so the canary is lower)
+        raise AnalysisBroken("only %d Content-Length assignments found in http_server.hpp (floor 4)" % n)
     # every in-server write of a response body keeps Content-Length in step (closed set of body writers)
     nb = 0
     for f in fb.in_file(HSF):
@@ -228,8 +709,8 @@ def r3(ctx, r):
             if not a:
                 continue
             lt = show(strip_casts(a[0]))
-            if not lt.endswith(".body") or lt.startswith("req.") or lt == "req.body":
-                continue
+            if not lt.endswith(".body") or lt.startswith("req.") or lt == "req.body" or last(strip_casts(a[0]).get("n", "").rsplit("::", 1)[0]) in ("Request", "HttpRequest"):
+                continue        # (the request side, by the member's declaration: HttpServer::Request::body / HttpRequest::body)
             rt = show(strip_views(a[1]))
             if rt.endswith(".body") or "parseChunkedBody" in rt:
                 continue        # copy of another message's body (its Content-Length travels with the copied headers) / request side
@@ -241,24 +722,44 @@ def r3(ctx, r):
                       or (asg(x.node) and "Content-Length" in show(asg(x.node)[0]) and show(asg(x.node)[0]).startswith(owner + ".headers")) for x in blk)
             r.expect(okb, f, e, "body written without Content-Length: %s" % lt, "%s assigns `%s` directly and does not set that message's Content-Length in the same block (only set_content keeps the two in step): the header keeps the length of an "
                      "earlier body and the peer loses framing on the connection" % (short(f.name), lt), okdesc="%s: %s written together with its Content-Length" % (last(f.name), lt))
-    if nb < 3:
-        raise AnalysisBroken("only %d direct response-body writes found (floor 3)" % nb)
+    if nb < 2:
+        # (three on the tree the rule was written for; the shutdown and parse-error responses may share one builder)
+        raise AnalysisBroken("only %d direct response-body writes found (floor 2)" % nb)
     # bodyless statuses (1xx, 204, 304 — RFC 9110 §6.4.1) carry neither body bytes nor a Content-Length on the wire, for ANY method
     # (HEAD: no body; its Content-Length may stay unless the status is bodyless).  Decided in two steps: the status predicate is
     # evaluated exactly over all status codes; the copy into the wire message is behind clear() / erase on every path it selects.
     from ..finite import compile_expr, NotPure
-    p = fn(ctx, HS, "processHttpRequest", HSF)
-    copy = [e for e in p.stmts() if asg(e.node) and show(strip_casts(asg(e.node)[0])) == "httpRes.body" and key_of(strip_views(asg(e.node)[1])) == "res.body"]
+    ro = roles(ctx)
+    p, copy, R_, Q_ = ro.p, ro.copy, ro.name["res"], ro.name["req"]
     if len(copy) != 1:
         raise AnalysisBroken("processHttpRequest: copy of the body into the wire message not found")
-    pred = None
+
+    def expand(n):
+        """n with every call to a loop-free, side-effect-free helper of HttpServer replaced by the expression the helper returns"""
+        if isinstance(n, list):
+            return [expand(x) for x in n]
+        if not isinstance(n, dict):
+            return n
+        if n.get("k") in ("call", "mcall"):
+            v = pure_value(fb, n)
+            if v is not None:
+                return v
+        return {k: expand(v) if isinstance(v, (dict, list)) else v for k, v in n.items()}
+
+    def status_codes(n):
+        return {const_value(x) for x in walk(n) if x.get("k") == "int"}
+    pred, pred_init = None, None
     for e in p.stmts():
         if e.node.get("k") == "decl":
             for dv in e.node["vars"]:
                 i = dv.get("init")
-                if dv.get("t", "").replace("const ", "") == "bool" and i is not None and {const_value(x) for x in walk(i) if x.get("k") == "int"} >= {204, 304}:
-                    pred = dv
+                if dv.get("t", "").replace("const ", "") == "bool" and i is not None:
+                    xi = expand(strip_casts(i))
+                    if status_codes(xi) >= {204, 304}:
+                        pred, pred_init = dv, xi
     r.instance()
+    if pred is None and any(b.cond is not None and status_codes(expand(b.cond)) >= {204, 304} for b in p.blocks.values()):
+        raise AnalysisBroken("processHttpRequest: the 'status has no content' test is written into the branch conditions instead of being one named bool: the rule follows a named predicate only")
     if pred is None:
         # the older spelling: explicit `res.status == 204 || res.status == 304` under the HEAD branch only
         r.fail(p, copy[0], "bodyless status carries a body", "processHttpRequest has no 'this status has no content' predicate covering 1xx, 204 and 304 for every method: a handler that sets content and then status 304, or only "
@@ -270,11 +771,11 @@ def r3(ctx, r):
             return [subst(x) for x in n]
         if not isinstance(n, dict):
             return n
-        if n.get("k") == "member" and show(n) == "res.status":
+        if n.get("k") == "member" and last(n.get("n", "")) == "status" and (_var(n.get("b")) or {}).get("d") == ro.RES:
             return {"k": "var", "n": "status", "t": "int", "d": -1}
         return {k: subst(v) if isinstance(v, (dict, list)) else v for k, v in n.items()}
     try:
-        fnp, _t, _c = compile_expr(subst(strip_casts(pred["init"])), ["status"])
+        fnp, _t, _c = compile_expr(subst(pred_init), ["status"])
     except NotPure as ex:
         raise AnalysisBroken("bodyless-status predicate not evaluable: %s" % ex)
     wrong = [st for st in range(0, 1000) if bool(fnp(st)) != (100 <= st < 200 or st in (204, 304))]
@@ -285,7 +786,7 @@ def r3(ctx, r):
         if n.get("k") == "var" and n.get("d") == pred["d"]:
             return A("B")
         cp = common.cmp_parts(n)
-        if cp and cp[0] in ("==", "!=") and "req.method" in show(n) and "HEAD" in show(n):
+        if cp and cp[0] in ("==", "!=") and (Q_ + ".method") in show(n) and "HEAD" in show(n):
             return A("head") if cp[0] == "==" else Not(A("head"))
         return None
 
@@ -293,9 +794,9 @@ def r3(ctx, r):
         if e.kind != "stmt":
             return None
         n = e.node
-        if n.get("k") == "mcall" and last(n.get("callee", "")) == "clear" and show(strip_casts(n.get("obj") or {})) == "res.body":
+        if n.get("k") == "mcall" and last(n.get("callee", "")) == "clear" and show(strip_casts(n.get("obj") or {})) == R_ + ".body":
             return [("set", "cleared", True)]
-        if n.get("k") == "mcall" and last(n.get("callee", "")) == "erase" and show(strip_casts(n.get("obj") or {})) == "res.headers" and "Content-Length" in show(n):
+        if n.get("k") == "mcall" and last(n.get("callee", "")) == "erase" and show(strip_casts(n.get("obj") or {})) == R_ + ".headers" and "Content-Length" in show(n):
             return [("set", "erased", True)]
         if n.get("k") == "decl" and any(v["d"] == pred["d"] for v in n["vars"]):
             return [("havoc", "B"), ("set", "cleared", False), ("set", "erased", False)]
@@ -309,18 +810,19 @@ def r3(ctx, r):
 
 
 def r4(ctx, r):
-    p = fn(ctx, HS, "processHttpRequest", HSF)
-    inv = [e for e in p.stmts() if e.node.get("k") == "mcall" and last(e.node.get("callee", "")) == "invokeWithSafetyNet"]
-    clears = [e for e in p.stmts() if e.node.get("k") == "mcall" and last(e.node.get("callee", "")) == "clear" and show(strip_casts(e.node.get("obj"))) == "res.body"]
-    setc = [e for e in p.stmts() if e.node.get("k") == "mcall" and last(e.node.get("callee", "")) == "set_content" and key_of(e.node.get("obj")) == "res"]
-    copy = [e for e in p.stmts() if asg(e.node) and show(strip_casts(asg(e.node)[0])) == "httpRes.body"]
-    if len(inv) < 3 or len(copy) != 1 or not clears:
-        raise AnalysisBroken("processHttpRequest: %d handler invocations, %d body copies, %d body clears" % (len(inv), len(copy), len(clears)))
+    ro = roles(ctx)
+    p, R_, Q_, W_ = ro.p, ro.name["res"], ro.name["req"], ro.name["wire"]
+    inv = ro.inv
+    clears = [e for e in p.stmts() if e.node.get("k") == "mcall" and last(e.node.get("callee", "")) == "clear" and show(strip_casts(e.node.get("obj"))) == R_ + ".body"]
+    setc = [e for e in p.stmts() if e.node.get("k") == "mcall" and last(e.node.get("callee", "")) == "set_content" and key_of(e.node.get("obj")) == R_]
+    copy = [e for e in p.stmts() if asg(e.node) and show(strip_casts(asg(e.node)[0])) == W_ + ".body"]
+    if ro.ninv < 3 or len(copy) != 1 or not clears:
+        raise AnalysisBroken("processHttpRequest: %d handler invocations, %d body copies, %d body clears" % (ro.ninv, len(copy), len(clears)))
     vocab = Vocab(["head", "cleared"])
 
     def leaf(n):
         cp = common.cmp_parts(n)
-        if cp and cp[0] == "==" and show(strip_casts(cp[1])) == "req.method" and any(x.get("k") == "enum" and last(x["n"]) == "HEAD" for x in walk(cp[2])):
+        if cp and cp[0] == "==" and show(strip_casts(cp[1])) == Q_ + ".method" and any(x.get("k") == "enum" and last(x["n"]) == "HEAD" for x in walk(cp[2])):
             return A("head")
         return None
 
@@ -330,9 +832,9 @@ def r4(ctx, r):
         if e in inv or e in setc:
             return [("set", "cleared", False)]
         a = asg(e.node) if e.kind == "stmt" else None
-        if a and show(strip_casts(a[0])) in ("res.body", "res"):
+        if a and show(strip_casts(a[0])) in (R_ + ".body", R_):
             return [("set", "cleared", False)]
-        if a and show(strip_casts(a[0])) == "req.method":
+        if a and show(strip_casts(a[0])) == Q_ + ".method":
             return [("havoc", "head")]
         return None
     pa = PredAbs(p, vocab, leaf, effects, init=Not(A("cleared")), eh=False)
@@ -346,12 +848,12 @@ def r4(ctx, r):
 
 
 class Renamed:
-    """an element of a helper, seen with the helper's Response parameter renamed to `res`"""
+    """an element of a helper, seen with the helper's Response parameter renamed to the caller's name for that object"""
 
-    def __init__(self, e, pname):
+    def __init__(self, e, pname, to="res"):
         import json
         self.kind, self.block, self.idx, self.line, self.raw, self.try_id, self.catch_id = e.kind, e.block, e.idx, e.line, e.raw, e.try_id, e.catch_id
-        self.node = json.loads(json.dumps(e.node).replace('"n": "%s"' % pname, '"n": "res"')) if e.kind == "stmt" else e.node
+        self.node = json.loads(json.dumps(e.node).replace('"n": "%s"' % pname, '"n": "%s"' % to)) if e.kind == "stmt" else e.node
 
 
 def r5(ctx, r):
@@ -373,6 +875,7 @@ def r5(ctx, r):
         r.instance()
         r.expect(last(f.name) == "invokeWithSafetyNet", f, e, "handler invoked outside the safety net", "%s invokes a user handler directly: an exception would escape without the 500 mapping" % short(f.name), okdesc="handler invoked in invokeWithSafetyNet")
     sn = fn(ctx, HS, "invokeWithSafetyNet", HSF)
+    RN = roles(ctx).sn_res          # the safety net's Response& parameter (by type), whatever it is called
     call = [e for (f, e) in invs if f is sn]
     r.instance()
     if not r.expect(len(call) == 1 and call[0].try_id, sn, call[0] if call else None, "handler outside try", "the handler call in invokeWithSafetyNet is not inside a try block"):
@@ -384,19 +887,19 @@ def r5(ctx, r):
     for b in sn.blocks.values():
         if b.label and b.label.get("k") == "catch" and b.label.get("try") == call[0].try_id:
             els = list(_reach_until_ret(sn, b.id))
-            # a clause may delegate to a helper of the class that receives the Response: look inside (the parameter takes the place of `res`)
+            # a clause may delegate to a helper of the class that receives the Response: look inside (the parameter takes the place of the response)
             for x in list(els):
                 c_ = (x.node.get("callee") or "") if x.kind == "stmt" else ""
-                if x.kind == "stmt" and x.node.get("k") in ("call", "mcall") and c_.startswith(HS + "::") and last(c_) not in ("set_content",) and any(key_of(a) == "res" for a in x.node.get("args", [])):
+                if x.kind == "stmt" and x.node.get("k") in ("call", "mcall") and c_.startswith(HS + "::") and last(c_) not in ("set_content",) and any(key_of(a) == RN for a in x.node.get("args", [])):
                     for g in fb.funcs(c_, HSF):
                         if g.ok:
-                            pi = [i for i, a in enumerate(x.node["args"]) if key_of(a) == "res"][0]
+                            pi = [i for i, a in enumerate(x.node["args"]) if key_of(a) == RN][0]
                             pn = g.params[pi]["n"] if pi < len(g.params) else None
                             if pn:
-                                els.extend(Renamed(y, pn) for y in g.stmts())
-            st = [x for x in els if x.kind == "stmt" and asg(x.node) and show(strip_casts(asg(x.node)[0])) == "res.status" and const_value(strip_casts(asg(x.node)[1])) == 500]
-            sc = [x for x in els if x.kind == "stmt" and x.node.get("k") == "mcall" and last(x.node.get("callee", "")) == "set_content" and key_of(x.node.get("obj")) == "res"]
-            su = [x for x in els if x.kind == "stmt" and asg(x.node) and show(strip_casts(asg(x.node)[0])) == "res._suppressSend" and const_value(strip_casts(asg(x.node)[1])) == 0]
+                                els.extend(Renamed(y, pn, RN) for y in g.stmts())
+            st = [x for x in els if x.kind == "stmt" and asg(x.node) and show(strip_casts(asg(x.node)[0])) == RN + ".status" and const_value(strip_casts(asg(x.node)[1])) == 500]
+            sc = [x for x in els if x.kind == "stmt" and x.node.get("k") == "mcall" and last(x.node.get("callee", "")) == "set_content" and key_of(x.node.get("obj")) == RN]
+            su = [x for x in els if x.kind == "stmt" and asg(x.node) and show(strip_casts(asg(x.node)[0])) == RN + "._suppressSend" and const_value(strip_casts(asg(x.node)[1])) == 0]
             r.instance()
             r.expect(len(st) == 1 and len(sc) == 1 and len(su) == 1, sn, None, "handler for %s" % b.label.get("t"), "the catch (%s) clause does not set status 500, set the body through set_content and clear _suppressSend (found %d/%d/%d)"
                      % (b.label.get("t"), len(st), len(sc), len(su)), okdesc="catch (%s): 500 + set_content + suppression cleared" % b.label.get("t"))
@@ -409,97 +912,312 @@ def r5(ctx, r):
     if ok and hb:
         els = _reach_until_ret(p, hb[0].id)
         snd = [x for x in els if x.kind == "stmt" and is_send(x.node)]
-        cls = [x for x in els if x.kind == "stmt" and x.node.get("k") == "mcall" and last(x.node.get("callee", "")) == "close" and "Transport" in x.node.get("callee", "")]
+        cls = [x for x in els if x.kind == "stmt" and (is_transport_close(x.node) or closes_through(fb, x.node) is not None)]
         ok = len(snd) == 1 and len(cls) == 1 and search(p, snd[0], lambda x: x is cls[0], eh=False) is not None
-        stt = [x for x in els if x.kind == "stmt" and x.node.get("k") == "decl" and any(v["n"] == "errStatus" and const_value(strip_casts(v.get("init") or {})) == 500 for v in x.node["vars"])]
+        # the status of the error response (first constructor argument of the HttpResponse built in the handler) is a local that starts as 500
+        # (or handed to the helper of HttpServer that builds it; `int s = 500; if (mapped) s = …` and `const int s = mapped ? … : 500` alike)
+        sv = {(_var(x.node["args"][0]) or {}).get("d") for x in els if x.kind == "stmt" and x.node.get("args") and ((x.node.get("k") == "ctor" and last(x.node.get("cls", "")) == "HttpResponse") or hs_callee(fb, x.node) is not None)} - {None}
+
+        def starts_500(i):
+            i = strip_casts(i) if i is not None else None
+            return i is not None and (const_value(i) == 500 or (i.get("k") == "cond" and any(isinstance(i.get(b_), dict) and const_value(strip_casts(i[b_])) == 500 for b_ in ("t", "f"))))
+        stt = [x for x in els if x.kind == "stmt" and x.node.get("k") == "decl" and any(v["d"] in sv and "int" in (v.get("t") or "") and starts_500(v.get("init")) for v in x.node["vars"])]
         ok = ok and bool(stt)
     r.expect(ok, p, fw[0] if fw else None, "parse failure unanswered", "a request that fails to parse does not reach an error response followed by a close", okdesc="parse failure → mapped status (default 500) sent, then close")
 
 
-def r6(ctx, r):
-    p = fn(ctx, HS, "processHttpRequest", HSF)
-    sets = [e for e in p.stmts() if asg(e.node) and key_of(asg(e.node)[0]) == "shouldCloseConnection" and const_value(strip_casts(asg(e.node)[1])) == 1]
-    if len(sets) < 2:
-        raise AnalysisBroken("processHttpRequest: %d `shouldCloseConnection = true` sites (floor 2)" % len(sets))
-    # every close intent is paired with the Connection: close header value in the same block
-    for e in sets:
-        r.instance()
-        nxt = [x for x in e.block.elems[e.idx:] if x.kind == "stmt" and asg(x.node) and key_of(asg(x.node)[0]) == "connectionHeader" and [y.get("v") for y in walk(asg(x.node)[1]) if y.get("k") == "str"] == ["close"]]
-        r.expect(len(nxt) == 1, p, e, "close intent without header", "the close intent is set without announcing `Connection: close`", okdesc="close intent ⇒ Connection: close header")
-    # the decision: `close` anywhere in the Connection option list closes; an HTTP/1.0 request persists only with an explicit
-    # keep-alive.  Two bools are folded over the comma-split, case-folded options; the decision is taken from them.
-    def opt_var(lit):
-        for e in p.stmts():
-            a_ = asg(e.node)
-            if a_ and strip_casts(a_[0]).get("k") == "var" and any(x.get("k") in ("opcall", "bin") and x.get("op") == "==" and [y.get("v") for y in walk(x) if y.get("k") == "str"] == [lit] for x in walk(a_[1])):
-                return strip_casts(a_[0]), e
-        return None, None
-    cvar, cdef = opt_var("close")
-    kvar, kdef = opt_var("keep-alive")
-    r.instance()
-    if cvar is None:
-        # older spelling: the whole value compared with "close"
-        whole = [b for b in p.blocks.values() if b.cond is not None and any(q[0] == "==" and [y.get("v") for y in walk(q[2]) if y.get("k") == "str"] == ["close"] for q in common.cmp_both(b.cond))]
-        if whole:
-            r.fail(p, None, "Connection: close ignored", "the Connection request field is compared with \"close\" as a whole value: `Connection: TE, close` / `close, TE` are answered keep-alive and the connection stays open")
-            return
-        raise AnalysisBroken("processHttpRequest: Connection option handling not identified")
-    split = any(x.get("k") == "call" and last(x.get("callee", "")) == "getline" and any(y.get("k") == "char" and y.get("cv") == 44 for y in walk(x)) for x in p.nodes.values())
-    low = [e for e in p.stmts() if e.node.get("k") == "call" and last(e.node.get("callee", "")) == "transform" and "tolower" in show(e.node) and search(p, e, lambda x: x is cdef, eh=False) is not None]
-    sticky = any(x.get("k") == "var" and x.get("d") == cvar.get("d") for x in walk(asg(cdef.node)[1]))
-    r.expect(split and bool(low) and sticky, p, cdef, "Connection options", "the Connection field is not handled as a comma-separated, case-insensitive option list (comma split: %s, lower-cased: %s, `close` remembered across "
-             "options: %s)" % (split, bool(low), sticky), okdesc="Connection: comma-split, case-folded, close is sticky")
-    vocab = Vocab(["close", "ka", "http10", "will"])
+def option_scan(fr, reqs):
+    """In the function of frame fr: which locals hold (parts of) THIS request's Connection field — seeded where a value is looked up under
+    the literal "Connection" in something that originates (through named values and parameters bound to arguments) from the request
+    objects `reqs`, propagated through initialisations, assignments and getline — and which bool locals record that one of its tokens
+    equals `close` / `keep-alive`.  Returns {"close": [(decl id, defining elem, sticky)], "keep-alive": […], "whole": [blocks / definitions
+    that compare the field as a whole — not a token — with `close`]}."""
+    g = fr.f
+    defs = local_defs(g)
 
-    def leaf(n):
-        if n.get("k") == "var" and n.get("d") == cvar.get("d"):
-            return A("close")
-        if kvar is not None and n.get("k") == "var" and n.get("d") == kvar.get("d"):
-            return A("ka")
-        if n.get("k") == "var" and n["n"] == "shouldCloseConnection":
-            return A("will")
+    def is_bool(lv):
+        return "bool" in (lv.get("t") or "")
+    tainted = set()
+    for d, lst in defs.items():
+        for (e, val, lv) in lst:
+            if val is not None and not is_bool(lv) and any(x.get("k") == "str" and (x.get("v") or "").lower() == "connection" for x in walk(val)) and \
+                    any((fr.origin(x) or {}).get("d") in reqs for x in walk(val) if x.get("k") == "var"):
+                tainted.add(d)
+    changed = bool(tainted)
+    while changed:
+        changed = False
+        for d, lst in defs.items():
+            if d not in tainted and any(val is not None and not is_bool(lv) and any(x.get("k") == "var" and x.get("d") in tainted for x in walk(val)) for (e, val, lv) in lst):
+                tainted.add(d)
+                changed = True
+
+    # tokens: what getline(<field>, token, ',') delivers (and values computed from a token); everything else that is derived is the field as a whole
+    tokens = {d for d, lst in defs.items() if d in tainted and any(e.node.get("k") == "call" and last(e.node.get("callee", "")) == "getline" and any(y.get("k") == "char" and y.get("cv") == 44 for y in walk(e.node)) for (e, val, lv) in lst)}
+    changed = bool(tokens)
+    while changed:
+        changed = False
+        for d, lst in defs.items():
+            if d not in tokens and d in tainted and all(val is not None and any(x.get("k") == "var" and x.get("d") in tokens for x in walk(val)) for (e, val, lv) in lst):
+                tokens.add(d)
+                changed = True
+
+    def is_cmp(x, lit, of):
+        return any(q[0] == "==" and _is_str(q[2], lit) and not [y for y in walk(q[1]) if y.get("k") == "str"] and any(y.get("k") == "var" and y.get("d") in of for y in walk(q[1])) for q in common.cmp_both(x))
+
+    def is_token_cmp(x, lit):
+        return is_cmp(x, lit, tokens)
+
+    def has_token_cmp(n, lit):
+        return any(is_token_cmp(x, lit) for x in walk(n))
+    out = {"whole": [b for b in g.blocks.values() if b.cond is not None and any(is_cmp(x, "close", tainted - tokens) and not is_cmp(x, "close", tokens) for x in walk(b.cond))] +
+                    [e for d, lst in defs.items() for (e, val, lv) in lst if val is not None and is_bool(lv) and any(is_cmp(x, "close", tainted - tokens) and not is_cmp(x, "close", tokens) for x in walk(val))],
+           "tainted": tainted, "tokens": tokens}
+    for lit in ("close", "keep-alive"):
+        found = []
+        for d, lst in defs.items():
+            for (e, val, lv) in lst:
+                if val is not None and is_bool(lv) and has_token_cmp(val, lit):
+                    # remembered across tokens: `x = x || tok == lit`, `x |= tok == lit`
+                    found.append((d, e, any(y.get("k") == "var" and y.get("d") == d for y in walk(val))))
+        for b in g.blocks.values():
+            c, st, sf = common.branch(b) if b.cond is not None else (None, None, None)
+            if c is None or not (is_token_cmp(c, lit) or (c.get("k") == "bin" and c.get("op") == "&&" and has_token_cmp(c, lit))):
+                continue
+            # `if (tok == lit) x = true;`
+            sets = [x for x in (g.blocks[st].elems if st is not None else []) if x.kind == "stmt" and asg(x.node) and _var(asg(x.node)[0]) is not None and is_bool(_var(asg(x.node)[0])) and const_value(strip_casts(asg(x.node)[1])) == 1]
+            for x in sets:
+                found.append((_var(asg(x.node)[0]).get("d"), x, True))
+        out[lit] = found
+    return out
+
+
+def close_intent(p, main, close, outcome):
+    """the bool local that decides, after the main send, whether Transport::close is reached: the locals read by the branch conditions
+    on the paths from the send to the close (named conditions computed after the send are opened), without the flags the send's
+    completion writes.  Returns the list of candidate declaration ids."""
+    fwd, work = set(), [main.block.id]
+    while work:
+        b = work.pop()
+        if b is None or b in fwd:
+            continue
+        fwd.add(b)
+        work.extend(p.blocks[b].succs)
+    bwd, work = set(), [close.block.id]
+    while work:
+        b = work.pop()
+        if b in bwd:
+            continue
+        bwd.add(b)
+        work.extend(p.blocks[b].preds)
+    decl_of = {}
+    for e in p.stmts():
+        if e.node.get("k") == "decl":
+            for v in e.node["vars"]:
+                decl_of[v["d"]] = e
+    cands = set()
+
+    def add(n, depth=0):
+        for x in walk(n):
+            if x.get("k") == "var" and "bool" in (x.get("t") or "") and x.get("parm") is None and x.get("d") not in outcome:
+                init = single_init(p, x.get("d"))
+                de = decl_of.get(x.get("d"))
+                if init is not None and de is not None and depth < 4 and de.block.id in fwd and (de.block is not main.block or de.idx > main.idx):
+                    add(init, depth + 1)        # a condition named after the send: what it is computed from
+                else:
+                    cands.add(x.get("d"))
+    for bid in fwd & bwd:
+        b = p.blocks[bid]
+        if b.cond is not None and b is not close.block:
+            add(b.cond)
+    return sorted(cands)
+
+
+R6_ATOMS = ["close", "ka", "http10", "will", "hv", "ann", "tmp"]
+
+
+def r6(ctx, r):
+    fb = ctx.fb()
+    ro = roles(ctx)
+    p, main = ro.p, ro.main
+    r.instance()
+    if not r.expect(len(main) == 1 and len(ro.tw) == 1, p, None, "main send", "main response send not found"):
+        return
+    main, tw = main[0], ro.tw[0]
+    reqs = {ro.REQ, ro.PARSED}
+    # ---- the close that follows the response, and the local that decides it (the close intent)
+    # (Transport::close itself, or the call of a helper of HttpServer whose body is that close: the lock clause below then reads the helper)
+    tclose = [e for e in p.stmts() if is_transport_close(e.node) or closes_through(fb, e.node) is not None]
+    closes = [e for e in tclose if search(p, main, lambda x, e=e: x is e, eh=False) is not None]
+    if not closes:
+        # moved out of the function in a shape that is not followed (several closes in the helper, a helper of a helper)
+        for e in p.stmts():
+            g = hs_callee(fb, e.node)
+            if g is not None and search(p, main, lambda x, e=e: x is e, eh=False) is not None and any(x.node.get("k") == "mcall" and last(x.node.get("callee", "")) == "close" and "Transport" in x.node.get("callee", "") for x in g.stmts()):
+                raise AnalysisBroken("processHttpRequest: the close after the response is performed inside %s; the rule reads the close decision and its critical section in processHttpRequest only" % short(g.name))
+    W = None
+    if len(closes) == 1:
+        cands = close_intent(p, main, closes[0], ro.OUTCOME)
+        if len(cands) != 1:
+            raise AnalysisBroken("processHttpRequest: the close decision that gates Transport::close after the response cannot be identified (bool locals read between the send and the close, without the "
+                                 "completion's flags: %s)" % (sorted({x["n"] for x in p.nodes.values() if x.get("k") == "var" and x.get("d") in cands}) or "none"))
+        W = cands[0]
+    Wn = ([x["n"] for x in p.nodes.values() if x.get("k") == "var" and x.get("d") == W] or ["?"])[0]
+    # ---- the announced value: what is passed to <wire>.setHeader("Connection", …) (or assigned to <wire>.headers["Connection"])
+    ann_sites = {}
+    for e in p.stmts():
+        n = e.node
+        if n.get("k") == "mcall" and last(n.get("callee", "")) in ("setHeader", "set_header") and (_var(n.get("obj")) or {}).get("d") == ro.WIRE and len(n.get("args", [])) >= 2 and _is_str(n["args"][0], "Connection", fold=True):
+            ann_sites[id(e)] = (e, n["args"][1])
+        a_ = asg(n)
+        if a_ and strip_casts(a_[0]).get("k") == "opcall" and strip_casts(a_[0]).get("op") == "[]" and len(strip_casts(a_[0])["args"]) == 2 and _is_str(strip_casts(a_[0])["args"][1], "Connection", fold=True) and \
+                (root_var(strip_casts(a_[0])["args"][0]) or {}).get("d") == ro.WIRE:
+            ann_sites[id(e)] = (e, a_[1])
+    hvars = {(_var(strip_views(v)) or {}).get("d") for (e, v) in ann_sites.values()} - {None}
+    if len(hvars) > 1:
+        raise AnalysisBroken("processHttpRequest: the Connection header of the response is set from %d different locals" % len(hvars))
+    H = hvars.pop() if hvars else None
+    # ---- the request's options: wherever the tokens of its Connection field are compared with `close` / `keep-alive`
+    fo = Follow(fb, p, R6_ATOMS)
+    frames = fo.frames()
+    scans = [(fr, option_scan(fr, reqs)) for fr in frames]
+    withc = [(fr, sc) for (fr, sc) in scans if sc["close"]]
+    withk = [(fr, sc) for (fr, sc) in scans if sc["keep-alive"]]
+    r.instance()
+    if not withc:
+        # older spelling: the whole value compared with "close"
+        whole = [(fr, b) for (fr, sc) in scans for b in sc["whole"]] or \
+                [(fo.top, b) for b in p.blocks.values() if b.cond is not None and any(q[0] == "==" and [y.get("v") for y in walk(q[2]) if y.get("k") == "str"] == ["close"] for q in common.cmp_both(b.cond))]
+        if whole and any((x.get("k") == "char" and x.get("cv") == 44) or (x.get("k") == "str" and "," in (x.get("v") or "")) for x in whole[0][0].f.nodes.values()):
+            raise AnalysisBroken("%s: the Connection field is compared with \"close\" in a function that also handles commas, but not as tokens delivered by getline(…, ','): the rule cannot tell tokens from the whole value here" % short(whole[0][0].f.name))
+        if whole:
+            r.fail(whole[0][0].f, None, "Connection: close ignored", "the Connection request field is compared with \"close\" as a whole value: `Connection: TE, close` / `close, TE` are answered keep-alive and the connection stays open")
+            return
+        raise AnalysisBroken("processHttpRequest: Connection option handling not identified (no comparison of this request's Connection field with \"close\" in the function or the HttpServer helpers it calls)")
+    if len(withc) > 1 or len({d for (d, e, s_) in withc[0][1]["close"]}) != 1 or len(withk) > 1 or (withk and len({d for (d, e, s_) in withk[0][1]["keep-alive"]}) != 1):
+        raise AnalysisBroken("processHttpRequest: the request's Connection options are scanned in more than one place (%s): which scan decides is not clear" % ", ".join(sorted({last(fr.f.name) for (fr, sc) in withc + withk})))
+    CF, csc = withc[0]
+    cd, cdefs = csc["close"][0][0], [e for (d, e, s_) in csc["close"]]
+    KF, kd = (withk[0][0], withk[0][1]["keep-alive"][0][0]) if withk else (None, None)
+    g = CF.f
+    split = any(x.get("k") == "call" and last(x.get("callee", "")) == "getline" and any(y.get("k") == "char" and y.get("cv") == 44 for y in walk(x)) for x in g.nodes.values())
+    low = [e for e in g.stmts() if e.node.get("k") == "call" and last(e.node.get("callee", "")) == "transform" and "tolower" in show(e.node) and any(search(g, e, lambda x, c_=c_: x is c_, eh=False) is not None for c_ in cdefs)]
+    sticky = all(s_ for (d, e, s_) in csc["close"])
+    if not split and any((x.get("k") == "char" and x.get("cv") == 44) or (x.get("k") == "str" and "," in (x.get("v") or "")) for x in g.nodes.values()):
+        raise AnalysisBroken("%s: the Connection field is cut at commas in a way the rule does not read (no getline(…, ','))" % short(g.name))
+    if not low and any(x.get("k") in ("call", "mcall") and any(w_ in (x.get("callee") or "").lower() for w_ in ("lower", "casecmp", "iequal", "icompare")) for x in g.nodes.values()):
+        raise AnalysisBroken("%s: the Connection field is case-folded in a way the rule does not read (no transform(…, tolower) before the comparison)" % short(g.name))
+    r.expect(split and bool(low) and sticky, g, cdefs[0], "Connection options", "the Connection field is not handled as a comma-separated, case-insensitive option list (comma split: %s, lower-cased: %s, `close` remembered across "
+             "options: %s)" % (split, bool(low), sticky), okdesc="Connection: comma-split, case-folded, close is sticky (%s)" % last(g.name))
+    # ---- the decision, over paths and through helpers
+    unbound = []
+
+    def leaf0(fr, n):
+        if n.get("k") == "var":
+            if fr is CF and n.get("d") == cd:
+                return A("close")
+            if fr is KF and n.get("d") == kd:
+                return A("ka")
+            if fr is fo.top and W is not None and n.get("d") == W:
+                return A("will")
+            return None
         for q in common.cmp_both(n):
-            if q[0] in ("==", "!=") and "version.minor" in show(q[1]) and const_value(strip_casts(q[2])) == 0:
-                return A("http10") if q[0] == "==" else Not(A("http10"))
+            m = strip_casts(q[1])
+            if q[0] in ("==", "!=") and m is not None and m.get("k") == "member" and m.get("n") == "iora::network::HttpVersion::minor" and const_value(strip_casts(q[2])) == 0:
+                o = fr.origin(m)
+                if o is not None and o.get("d") in reqs:
+                    return A("http10") if q[0] == "==" else Not(A("http10"))
+                unbound.append("%s in %s" % (show(n), last(fr.f.name)))
+                return None
         return None
 
-    def effects(e):
+    def eff0(fr, e, lf):
         if e.kind != "stmt":
             return None
-        a_ = asg(e.node)
-        if a_ and key_of(a_[0]) == "shouldCloseConnection":
-            cv_ = const_value(strip_casts(a_[1]))
-            return [("set", "will", bool(cv_))] if cv_ is not None else [("havoc", "will")]
-        if a_ and strip_casts(a_[0]).get("k") == "var" and strip_casts(a_[0]).get("d") == cvar.get("d"):
-            return [("havoc", "close")]
-        if a_ and kvar is not None and strip_casts(a_[0]).get("k") == "var" and strip_casts(a_[0]).get("d") == kvar.get("d"):
-            return [("havoc", "ka")]
-        if e.node.get("k") == "decl":
-            ops = []
-            for v in e.node["vars"]:
-                if v["n"] == "shouldCloseConnection":
-                    cv_ = const_value(strip_casts(v.get("init") or {}))
-                    ops.append(("set", "will", bool(cv_)) if cv_ is not None else ("havoc", "will"))
-            return ops
-        return None
-    pa = PredAbs(p, vocab, leaf, effects, eh=False)
-    main = main_send(p)[3]
+        n, ops, k = e.node, [], e.node.get("k")
+
+        def tr(x):
+            c_ = strip_casts(x) if x is not None else None
+            if c_ is None:
+                return None
+            if c_.get("k") == "bool" and c_.get("cv") is not None:
+                return T if c_["cv"] else F
+            return translate(x, lf)
+
+        def strval(x, depth=0):
+            """formula for 'this string is "close"'"""
+            x = strip_views(x) if x is not None else None
+            if x is None or depth > 4:
+                return None
+            if x.get("k") == "str":
+                return T if (x.get("v") or "").strip().lower() == "close" else F
+            if x.get("k") == "cond" and isinstance(x.get("t"), dict) and isinstance(x.get("f"), dict):
+                c_, a_, b_ = total(tr(x["c"])), strval(x["t"], depth + 1), strval(x["f"], depth + 1)
+                return None if c_ is None or a_ is None or b_ is None else Or(And(c_, a_), And(Not(c_), b_))
+            if x.get("k") == "var" and H is not None and x.get("d") == H:
+                return A("hv")
+            return None
+        defs = []
+        if k == "decl":
+            defs = [(v["d"], "=", v.get("init")) for v in n["vars"]]
+        elif k in ("bin", "opcall") and is_assign(n) and _var(_ap(n)[0]) is not None:
+            defs = [(_var(_ap(n)[0]).get("d"), _ap(n)[1], _ap(n)[2])]
+        elif k == "un" and ("++" in n.get("op", "") or "--" in n.get("op", "")) and _var(n.get("v")) is not None:
+            defs = [(_var(n["v"]).get("d"), n["op"], None)]
+        for (d, op, val) in defs:
+            if fr is CF and d == cd:
+                ops.append(("havoc", "close"))
+            if fr is KF and d == kd:
+                ops.append(("havoc", "ka"))
+            if fr is not fo.top:
+                continue
+            if W is not None and d == W:
+                fm = tr(val) if op == "=" else (("or?", A("will"), tr(val)) if op == "|=" else (("and?", A("will"), tr(val)) if op == "&=" else None))
+                ops += flag_ops("will", fm, "tmp") if val is not None else [("havoc", "will")]
+            if H is not None and d == H:
+                fm = strval(val) if op == "=" else None
+                ops.append(("assign", "hv", fm) if fm is not None else ("havoc", "hv"))
+        if fr is fo.top:
+            if id(e) in ann_sites:
+                fm = strval(ann_sites[id(e)][1])
+                ops.append(("assign", "ann", fm) if fm is not None else ("havoc", "ann"))
+            a_ = asg(n)
+            if a_ and strip_casts(a_[0]).get("k") == "member" and last(strip_casts(a_[0]).get("n", "")) == "headers" and (_var(strip_casts(a_[0]).get("b")) or {}).get("d") == ro.WIRE:
+                ops.append(("havoc", "ann"))        # the header map is replaced as a whole
+            if H is not None and id(e) not in ann_sites and k in ("call", "mcall"):
+                # the announced value handed to / modified by something else
+                if any((root_var(x) or {}).get("d") == H for x in n.get("args", [])) or (k == "mcall" and (_var(n.get("obj")) or {}).get("d") == H and last(n.get("callee", "")) not in ("size", "length", "empty", "c_str", "data", "compare", "find")):
+                    ops.append(("havoc", "hv"))
+        return ops
+    fo.leaf0, fo.eff0 = leaf0, eff0
+    pa = fo.run(init=Not(A("ann")), eh=False)
     r.instance()
-    if not r.expect(len(main) == 1, p, None, "main send", "main response send not found"):
-        return
+    r.expect(W is not None and pa.entails(main, Or(Not(A("close")), A("will"))), p, main, "Connection: close ignored", "the response is sent on a path where the request carried a `close` option but the close intent is not set (%s)" % ", ".join(x for x in pa.describe(main) if not x.lstrip("!").startswith(("tmp", "b:"))),
+             okdesc="close option ⇒ close intent (%s) at the send" % Wn)
     r.instance()
-    r.expect(pa.entails(main[0], Or(Not(A("close")), A("will"))), p, main[0], "Connection: close ignored", "the response is sent on a path where the request carried a `close` option but the close intent is not set (%s)" % ", ".join(pa.describe(main[0])),
-             okdesc="close option ⇒ close intent at the send")
-    r.instance()
-    r.expect(kvar is not None and pa.entails(main[0], Or(Not(A("http10")), A("ka"), A("will"))), p, main[0], "HTTP/1.0 kept alive by default", "an HTTP/1.0 request without a keep-alive option is answered on a path where the close intent is not "
+    ok10 = W is not None and pa.entails(main, Or(Not(A("http10")), A("ka"), A("will")))
+    if not ok10 and unbound:
+        raise AnalysisBroken("processHttpRequest: an HTTP version test was found whose object could not be traced back to this request (%s)" % "; ".join(sorted(set(unbound))[:3]))
+    HV = "iora::network::HttpVersion"
+    if not ok10 and not any(x.get("k") == "member" and x.get("n") == HV + "::minor" for fr in frames for x in fr.f.nodes.values()) and \
+            any((x.get("k") == "member" and x.get("n", "").startswith(HV + "::")) or (x.get("k") in ("call", "mcall", "opcall") and ((x.get("callee") or "").startswith(HV + "::") or
+                (x.get("k") == "opcall" and any(HV in (strip_casts(a_).get("t") or "") for a_ in x.get("args", []) if isinstance(a_, dict))))) for fr in frames for x in fr.f.nodes.values()):
+        # (handing the version on as an argument is not consulting it; reading another member / calling a member function / comparing versions is)
+        raise AnalysisBroken("processHttpRequest: the request's HTTP version is consulted in a form the rule does not read (no `version.minor == 0` test)")
+    r.expect(ok10, p, main, "HTTP/1.0 kept alive by default", "an HTTP/1.0 request without a keep-alive option is answered on a path where the close intent is not "
              "set: the response says keep-alive and the connection stays open — an HTTP/1.0 client that reads to EOF hangs", okdesc="HTTP/1.0 without keep-alive ⇒ close intent")
+    # every close intent is announced: at the serialisation the wire message's Connection header is `close` whenever the intent is set
+    r.instance()
+    if not ann_sites and any(e.node.get("k") in ("call", "mcall") and not (e.node.get("callee") or "").startswith("std::") and any((root_var(a) or {}).get("d") == ro.WIRE for a in e.node.get("args", [])) for e in p.stmts()):
+        raise AnalysisBroken("processHttpRequest: no Connection header is set on the wire message in the function itself, and the message is handed to another function: the announcement is not followed there")
+    r.expect(W is not None and bool(ann_sites) and pa.entails(tw, Or(Not(A("will")), A("ann"))), p, tw, "close intent without header", "the close intent is set without announcing `Connection: close` (%s)" % ", ".join(x for x in pa.describe(tw) if not x.lstrip("!").startswith(("tmp", "b:"))),
+             okdesc="close intent ⇒ Connection: close header")
     # the decision belongs to THIS request: processHttpRequest also reads per-connection fields (SessionInfo::httpVersion,
     # connectionKeepAlive); with pipelining several requests of one connection are framed before the first is answered, so a
     # field written from the framing of a LATER request would decide the response of an earlier one.  Nobody writes them.
     SI = HS + "::SessionInfo"
     nread = 0
     for fld in ("connectionKeepAlive", "httpVersion"):
-        nread += sum(1 for x in p.nodes.values() if x.get("k") == "member" and x["n"] == SI + "::" + fld)
+        nread += sum(1 for f_ in {fr.f.sig: fr.f for fr in frames}.values() for x in f_.nodes.values() if x.get("k") == "member" and x["n"] == SI + "::" + fld)
         for g in ctx.fb().in_file(HSF):
             if not g.ok:
                 continue
@@ -508,25 +1226,25 @@ def r6(ctx, r):
                 r.fail(g, e, "per-connection close state written", "%s writes SessionInfo::%s: processHttpRequest reads it for whichever request it is answering, so with two pipelined requests the value noted while framing the "
                        "second (e.g. its `Connection: close`) closes the connection after the FIRST response — the first is announced `Connection: close` though it did not ask, the second is never answered" % (short(g.name), fld))
     r.instance()
-    r.ok("SessionInfo close state is never written (%d reads in processHttpRequest)" % nread)
-    # header set from connectionHeader before serialisation
-    sh = [e for e in p.stmts() if e.node.get("k") == "mcall" and last(e.node.get("callee", "")) == "setHeader" and key_of(e.node.get("obj")) == "httpRes" and [y.get("v") for y in walk(e.node["args"][0]) if y.get("k") == "str"] == ["Connection"]]
-    tw = [e for e in p.stmts() if e.node.get("k") == "mcall" and last(e.node.get("callee", "")) == "toWireFormat" and key_of(e.node.get("obj")) == "httpRes"]
+    r.ok("SessionInfo close state is never written (%d reads in processHttpRequest and the helpers it calls)" % nread)
+    # the header is set on every path before serialisation
     r.instance()
-    r.expect(len(sh) == 1 and tw and key_of(strip_views(sh[0].node["args"][1])) == "connectionHeader" and elem_dominates(p, sh[0], tw[0], eh=False), p, None, "Connection header", "the response does not carry connectionHeader", okdesc="Connection header from the decision")
-    # the close: after the send, outside its critical section, on (sendFailed || (sendSucceeded && shouldClose))
-    closes = [e for e in p.stmts() if e.node.get("k") == "mcall" and last(e.node.get("callee", "")) == "close" and "Transport" in e.node.get("callee", "") and search(p, main[0], lambda x, e=e: x is e, eh=False) is not None]
+    r.expect(bool(ann_sites) and search(p, ("entry",), lambda x: x is tw, stop=lambda x: id(x) in ann_sites, eh=False) is None, p, None, "Connection header", "the response is serialised on a path on which its Connection header was not set from the decision", okdesc="Connection header from the decision")
+    # the close: after the send, outside its critical section, on (send failed || (send succeeded && close intent))
     r.instance()
     ok = len(closes) == 1
     if ok:
-        gate = [b for b in p.blocks.values() if b.cond is not None and {x.get("n") for x in walk(b.cond) if x.get("k") == "var"} >= {"shouldCloseConnection"} and b.term.get("k") in ("IfStmt", "BinaryOperator")]
         la = ctx.locks()
-        same_section = common.same_section(p, la, main[0], closes[0], HS + "::_mutex") if hasattr(common, "same_section") else False
-        ok = bool(gate) and la.holds(p, closes[0], HS + "::_mutex") and la.holds(p, main[0], HS + "::_mutex")
-        # not the same critical section: some element between them runs without _mutex
-        between = search(p, main[0], lambda x: x is closes[0], stop=lambda x: not la.holds(p, x, HS + "::_mutex"), eh=False)
-        ok = ok and between is None
-        ok = ok and pa.entails(closes[0], T)
+        via = closes_through(fb, closes[0].node)
+        if via is not None:
+            # the close lives in a helper that takes _mutex itself: it must be called with _mutex released, and close under the helper's own lock
+            inner = [x for x in via.stmts() if is_transport_close(x.node)][0]
+            ok = W is not None and la.holds(p, main, HS + "::_mutex") and not la.holds(p, closes[0], HS + "::_mutex") and la.holds(via, inner, HS + "::_mutex")
+        else:
+            ok = W is not None and la.holds(p, closes[0], HS + "::_mutex") and la.holds(p, main, HS + "::_mutex")
+            # not the same critical section: some element between them runs without _mutex
+            between = search(p, main, lambda x: x is closes[0], stop=lambda x: not la.holds(p, x, HS + "::_mutex"), eh=False)
+            ok = ok and between is None
     r.expect(ok, p, closes[0] if closes else None, "close after response", "the connection is not closed after the response in a separate critical section (close from inside the send's section re-enters the synchronous completion)",
              okdesc="close(sid) after the send, _mutex released and re-acquired")
     # the close that follows the response must not be able to discard it: sendAsync's completion means "accepted", the bytes may
@@ -590,14 +1308,14 @@ def r6(ctx, r):
              "without looking at the session's write queue, so for a response larger than what the socket takes at once the tail still queued is discarded: the peer receives fewer body bytes than Content-Length announces, then EOF "
              "(`Connection: close`, HTTP/1.0 and every error path)", okdesc="application close is deferred until the write queue has drained")
     # completion lambda only records
-    lam = [lf for (ln, lf) in p.lambdas if any(asg(x.node) and key_of(asg(x.node)[0]) == "sendSucceeded" for x in lf.stmts())]
+    lam = [ro.completion] if ro.completion is not None else []
     r.instance()
     r.expect(len(lam) == 1 and not any(x.node.get("k") == "mcall" and last(x.node.get("callee", "")) in ("close", "sendAsync") for x in lam[0].stmts()), p, None, "completion lambda", "the send completion does more than record the outcome", okdesc="completion lambda capture-only")
 
 
 def r7(ctx, r):
     fb = ctx.fb()
-    h = fn(ctx, HS, "handleIncomingData", HSF)
+    h0, h = dispatch_fn(ctx)
     enq = [e for e in h.stmts() if e.node.get("k") == "mcall" and last(e.node.get("callee", "")) in ("tryEnqueue", "enqueue")]
     if len(enq) != 1:
         raise AnalysisBroken("handleIncomingData: %d dispatch sites" % len(enq))
@@ -623,22 +1341,27 @@ def r7(ctx, r):
         if read_h and write_p:
             gate_fields.append(fld)
     r.instance()
-    r.expect((maxw is not None and maxw <= 1) or bool(gate_fields), h, enq[0], "concurrent dispatch of one connection", "handleIncomingData hands every pipelined request of a connection to a pool of up to %s workers as soon as it is extracted; nothing "
+    r.expect((maxw is not None and maxw <= 1) or bool(gate_fields), h0, enq[0], "concurrent dispatch of one connection", "handleIncomingData hands every pipelined request of a connection to a pool of up to %s workers as soon as it is extracted; nothing "
              "(a per-session in-flight flag or queue, a sequence number on the send path, a single worker) orders two requests of the same connection, so a fast handler's response is written before a slow earlier one: "
              "responses leave in completion order, not request order" % maxw, okdesc="per-connection dispatch serialised (%s)" % (gate_fields or "single worker"))
 
 
 def anchors(ctx, r):
-    tab = [(fn(ctx, HS, "processHttpRequest", HSF), ["shouldCloseConnection", "connectionHeader", "connValue", "httpRes", "res", "req", "sendSucceeded", "errStatus"]),
-           (fn(ctx, HS, "handleIncomingData", HSF), ["requestData", "sid"]), (fn(ctx, HS, "invokeWithSafetyNet", HSF), ["res", "handler"])]
-    for f, names in tab:
-        common.require_names(f, names)
-        r.instance()
-        r.ok("%s: %s" % (last(f.name), ", ".join(names)))
+    """The rules no longer identify anything through a local NAME: every role is derived from types and dataflow (roles(), r1, r5, r6).  This
+    rule derives the roles once and shows them; a role that cannot be derived is a refusal (exit 2), never an alarm."""
+    ro = roles(ctx)
+    r.instance()
+    r.ok("processHttpRequest: request %s (parsed %s), response %s, wire message %s" % (ro.name["req"], ro.name["parsed"], ro.name["res"], ro.name["wire"]))
+    r.instance()
+    if len(ro.main) != 1 or ro.completion is None:
+        raise AnalysisBroken("processHttpRequest: the send of the serialised wire message (with its completion) was not identified (%d candidates)" % len(ro.main))
+    r.ok("processHttpRequest: main send at line %d, completion writes %s" % (ro.main[0].line, sorted(x["n"] for x in ro.completion.nodes.values() if x.get("k") == "var" and x.get("cap") and (ro.completion.parent.get(x.get("id")) is not None))[:4]))
+    r.instance()
+    r.ok("invokeWithSafetyNet: response parameter %s" % ro.sn_res)
 
 
 def run(ctx, ck):
-    r0 = ck.run_rule("C16-R0", "the local names the rules are anchored on exist (a rename makes the analysis refuse — exit 2 — instead of raising a false alarm)", "anchor table", lambda r: anchors(ctx, r))
+    r0 = ck.run_rule("C16-R0", "the roles the rules speak about (request, response, wire message, main send and its completion, safety-net response) are derived from types and dataflow, not from local names", "role derivation", lambda r: anchors(ctx, r))
     if r0.broken:
         return
     ck.run_rule("C16-R1", "at most one send command per request; every exit has sent, handed over or found the transport gone; every extracted request enqueued or 503", "A5 predicate abstraction with ghost send counter", lambda r: r1(ctx, r))
